@@ -335,7 +335,7 @@ func (o *isolationOracle) BeforeStep(w *World, i int, s *Step) {
 		}
 	}
 	o.rcPeer = ""
-	if (s.Kind != "announce" && s.Kind != "withdraw") || s.Peer >= len(w.Peers) || o.armed != "" || len(s.Chunks) > 0 {
+	if (s.Kind != "announce" && s.Kind != "withdraw") || s.Peer >= len(w.Peers) || o.armed != "" || len(s.Chunks) > 0 || len(s.Wd) > 0 {
 		return
 	}
 	for _, q := range w.Peers {
